@@ -25,7 +25,7 @@ class C08(scen.WorldProp):
     def cases(self, rng, tier):
         n = 200 if tier == "quick" else 2000
         for i in range(n):
-            N = rng.choice([4, 6, 6, 8, 10, 12])
+            N = rng.choice([4, 6, 6, 8, 10, 12, 12])
             named = rng.random() < 0.4
             name = "Wheatley" if named else None
             humans = sorted(rng.sample(range(1, N + 1), rng.randint(0, N - 1)))
@@ -34,7 +34,7 @@ class C08(scen.WorldProp):
             if rng.random() < 0.3:
                 # a custom start row (shorter than, or as long as, the tower): every bell still has one owner and is
                 # struck once a row
-                k = rng.choice([N, N, N - 1, N - 2])
+                k = rng.choice([N, N - 1, N - 2, N - 2])
                 bells = list(range(1, k + 1))
                 rng.shuffle(bells)
                 if k >= 3 and rng.random() < 0.5:
